@@ -1586,7 +1586,7 @@ def rule_dec_nonzero(ctx):
                 r.violate(root.name, "amount=" + re.sub(r"@m\d+|#\d+", "", show(a))[:50],
                           "decrement_strong may be called with amount 0: on an object whose count is already 0 this defers a "
                           "second try_destruct (double destruction)", e.loc())
-    r.require(n, 7, "decrement_strong call sites")
+    r.require(n, 5, "decrement_strong call sites")
     return r
 
 
